@@ -78,6 +78,7 @@ func alterToolVersion(tool string, args []string) error {
 	}
 
 	contentID := addGarbleToHash(toolID)
+	verifEvent("tool-version", "tool", tool, "line", line, "content_id", encodeBuildIDHash(contentID))
 	// The part of the build ID that matters is the last, since it's the
 	// "content ID" which is used to work out whether there is a need to redo
 	// the action (build) or not. Since cmd/go parses the last word in the
@@ -120,6 +121,7 @@ func addGarbleToHash(inputHash []byte) [sha256.Size]byte {
 	// Otherwise the next use of the global sumBuffer would conflict.
 	var sumBuffer [sha256.Size]byte
 	hasher.Sum(sumBuffer[:0])
+	verifHashInput("addGarbleToHash")
 	return sumBuffer
 }
 
